@@ -1160,13 +1160,30 @@ where
                 _ => None,
             };
 
+            // Native `open_input` opens each batch at `index >> (log_global_max_height -
+            // log2(batch max height))`: a batch whose tallest matrix is shorter than the global
+            // maximum has a shallower Merkle tree, addressed by the upper index bits only.
+            let batch_log_max_height = mats
+                .iter()
+                .map(|(domain, _)| domain.log_size() + log_blowup)
+                .max()
+                .unwrap_or(0);
+            let bits_reduced = log_global_max_height
+                .checked_sub(batch_log_max_height)
+                .ok_or_else(|| {
+                    VerificationError::InvalidProofShape(format!(
+                        "batch {batch_idx}: matrix height exceeds the global maximum height"
+                    ))
+                })?;
+            let batch_index_bits = &index_bits[bits_reduced..];
+
             let op_ids = if perm_config.is_arity4_shape() {
                 verify_batch_circuit_arity4::<F, EF>(
                     builder,
                     perm_config,
                     &commitment_cap,
                     &dimensions,
-                    index_bits,
+                    batch_index_bits,
                     batch_openings,
                 )
             } else {
@@ -1175,7 +1192,7 @@ where
                     perm_config,
                     &commitment_cap,
                     &dimensions,
-                    index_bits,
+                    batch_index_bits,
                     batch_openings,
                     salts_for_batch,
                 )
